@@ -56,6 +56,15 @@ def run(chk):
         if p.returncode != 0:
             raise vlib.HarnessError('corpus generation failed: ' + p.stdout[-2000:])
         ncases = sum(1 for _ in open(os.path.join(d, 'cases.tsv')))
+        # the alignment classes the description claims must really be in the corpus (the search for
+        # a first stream of the right compressed length can fail; that must not go unnoticed)
+        classes = set(l.rstrip('\n').split('\t')[4] for l in open(os.path.join(d, 'cases.tsv')))
+        for need in ('bz2 2 streams, first compressed length = 4998 mod 5000, second stream tiny', 'bz2 2 streams, first compressed length = 4999 mod 5000, second stream tiny',
+                     'bz2 2 streams, first compressed length = 1 mod 5000, second stream tiny', 'bz2 3 streams, first compressed length = 4999 mod 5000',
+                     'gz 2 streams, first compressed length = 4999 mod 5000, second stream tiny', 'gz 2 streams, first compressed length = 0 mod 4096, second stream tiny',
+                     'bz2 1 stream(s), total compressed size = 0 mod 5000', 'gz 1 stream(s), total compressed size = 0 mod 4096'):
+            if need not in classes:
+                raise vlib.HarnessError('c09 corpus lacks the class %r: %s' % (need, p.stdout[-500:]))
         nreader = _reader_corpus(d, chk.seed, chk.thorough())
         for buf, binary in zip(BUFS, bins):
             tag = 'default' if buf is None else str(buf)
@@ -86,5 +95,5 @@ def run(chk):
     chk.assumptions = ["Python's gzip and bz2 modules are the reference decompressors (multi-member / multi-stream aware)",
                        'damaged input: violation only if the library returns without error a proper prefix of the payload that the reference does not accept; other divergences are counted, not judged']
     return chk.finish('fault_enumeration',
-                      'Python-generated corpus: payload sizes {0,1,100,10239,10240,10241,30000,2^20-1,2^20,2^20+1,(thorough: 3*2^20+17 ...)} high and low entropy x 1..6 concatenated streams (empty and tiny streams, first-stream compressed length = 0,1,-1 mod 5000/4096/100) x {gzip,bzip2}; every truncation length and every single-byte corruption of files <= 4 KiB, sampled ones incl. stream boundaries +-2 for larger files; each file through the fd and the buffer decompressor under three input buffer sizes (default, 4096, 100; hook H3); library compressor output re-read by the library and by Python; multi-stream OPL through the Reader. distinct = hash of file bytes',
+                      'Python-generated corpus: payload sizes {0,1,100,10239,10240,10241,30000,2^20-1,2^20,2^20+1,(thorough: 3*2^20+17 ...)} high and low entropy x 1..6 concatenated streams (empty and tiny streams, first-stream compressed length = 0,1,2,3,-2,-1 mod 5000 and 0,1,-1 mod 4096/100 as far as a first stream of that size is found - the classes 1,-2,-1 mod 5000 for bzip2 and -1 mod 5000, 0 mod 4096 for gzip are required to be present) x {gzip,bzip2}; every truncation length and every single-byte corruption of files <= 4 KiB, sampled ones incl. stream boundaries +-2 for larger files; each file through the fd and the buffer decompressor under three input buffer sizes (default, 4096, 100; hook H3); library compressor output re-read by the library and by Python; multi-stream OPL through the Reader. distinct = hash of file bytes',
                       required_counters=['files_with_reference_payload', 'damaged_files', 'damaged_files_rejected', 'library_roundtrips', 'reader_files', 'library_files_verified_by_python'])
